@@ -449,6 +449,11 @@ def run(unit):
             for mode in ('min', 'full'):
                 text = absyn.expr_text(t, mode)
                 probs += compare_text('expr', text, t, r)
+                if sort != 'B' and mode == 'min':
+                    bt = ('bin', '<', t, num(0)) if sort == 'N' else ('bin', '=', t, ('lit', '"z"', '"z"'))
+                    btext = text + (' < 0' if sort == 'N' else ' = "z"')
+                    pexp = props.make_property('globally', 'absence', beh=props.ev('tt', None, ('pred', bt)))
+                    probs += compare_text('prop', 'globally : no tt { ' + btext + ' }', pexp, r)
                 if sort == 'B':
                     pt = ('ptrue',) if t == TRUE else ('pfalse',) if t == FALSE else ('pred', t)
                     probs += compare_text('pred', '{ ' + text + ' }', pt, r)
@@ -480,12 +485,14 @@ def run(unit):
             for mode in ('min', 'full'):
                 text = absyn.expr_text(t, mode)
                 probs += compare_text('expr', text, t, r)
-                if T_is_bool(t):
-                    probs += compare_text('pred', '{ ' + text + ' }', ('pred', t), r)
-                    probs += compare_text('cond', text, ('pred', t), r)
-                    pexp = props.make_property('after', 'response', act=props.ev('s'), trig=props.ev('tt', None, ('pred', t)), beh=props.ev('uu'))
-                    probs += compare_text('prop', 'after s : tt { ' + text + ' } causes uu', pexp, r)
-                    probs += compare_text('spec', '# id : k after s : tt { ' + text + ' } causes uu', None, r)
+                # as a predicate (non-boolean terms inside a comparison), through the predicate / condition
+                # parsers and inside a property and a specification file (the other embedded grammar)
+                bt, btext = (t, text) if T_is_bool(t) else (('bin', '<', t, num(0)), text + ' < 0')
+                probs += compare_text('pred', '{ ' + btext + ' }', ('pred', bt), r)
+                probs += compare_text('cond', btext, ('pred', bt), r)
+                pexp = props.make_property('after', 'response', act=props.ev('sa'), trig=props.ev('tt', None, ('pred', bt)), beh=props.ev('uu'))
+                probs += compare_text('prop', 'after sa : tt { ' + btext + ' } causes uu', pexp, r)
+                probs += compare_text('spec', '# id : k after sa : tt { ' + btext + ' } causes uu', None, r)
             r.count('validated')
             _add(r, [(f'operator pair: {k_}', d) for k_, d in probs], {'kind': 'expr', 'text': absyn.expr_text(t)}, absyn.size(t))
         r.sample({'operator_pair': absyn.expr_text(t)})
